@@ -179,7 +179,8 @@ def _parse_directive_options(
     options_block: None | str = None
     if content.startswith("---"):
         line = None if line is None else line + 1
-        content = "\n".join(content.splitlines()[1:])
+        # keep every line terminated, so that no (blank) line is lost when re-splitting
+        content = "".join(ln + "\n" for ln in content.splitlines()[1:])
         match = re.search(r"^-{3,}", content, re.MULTILINE)
         if match:
             options_block = content[: match.start()]
@@ -196,7 +197,8 @@ def _parse_directive_options(
                 break
             yaml_lines.append(content_lines.pop(0).lstrip()[1:])
         options_block = "\n".join(yaml_lines)
-        content = "\n".join(content_lines)
+        # keep every line terminated, so that no (blank) line is lost when re-splitting
+        content = "".join(ln + "\n" for ln in content_lines)
 
     has_options_block = options_block is not None
 
